@@ -4,6 +4,7 @@
      V <id> <rxRate> <txRate>                  -> <id> rx=<q>,<F>,<cap> tx=<q>,<F>,<cap>  (MakeValve)
      B <id> <rate> <cap> <op> ...              -> <id> <res> ...     ops on one bucket with an injected clock:
          A:<d ns> advance | T:<c> Take | M:<c>:<maxwait ns> TakeMaxDuration | V Available
+         W:<c> Wait | X:<c>:<maxwait ns> WaitMaxDuration (both sleep on the injected clock: time advances by the wait)
          res: - | w<wait ns> | x (refused) | v<available>
      G <id> <q> <F> <cap> <t0> <gap>:<c> ...   -> <id> <release>:<c> ...   sequential sender with pauses (times relative to bucket start t0... absolute = t0 + rel)
      Q <id> <q> <F> <cap> <t>:<c> ...          -> <id> <release>:<c> ...   requests at given times (relative to bucket start) *)
@@ -16,6 +17,8 @@ let parse_op s = match split_on ':' s with
   | ["T"; c] -> BTake (zi c)
   | ["M"; c; m] -> BTakeMax (zi c, zi m)
   | ["V"] -> BAvailable
+  | ["W"; c] -> BWait (zi c)
+  | ["X"; c; m] -> BWaitMax (zi c, zi m)
   | _ -> failwith ("bad op " ^ s)
 let show_res = function
   | RNone -> "-" | RWait w -> "w" ^ string_of_int (int_of_z w) | RRefused -> "x" | RAvail a -> "v" ^ string_of_int (int_of_z a)
